@@ -743,6 +743,26 @@ func scnCodec(rep *Report, rng *Rng, tier string, outdir string) {
 			}
 		}
 	}
+	// long block-size lists (files of many chunks under one node, as other writers emit them): one packed run / unpacked,
+	// at and around the sizes a decoder might pre-allocate or cap at
+	for _, lb := range [][2]int{{1024, 1}, {1025, 1}, {4097, 1}, {1025, 0}} {
+		m := &GMsg{Type: 2}
+		var run []byte
+		w := protowire.AppendVarint(protowire.AppendTag(nil, 1, protowire.VarintType), 2)
+		for j := 0; j < lb[0]; j++ {
+			v := uint64(1 + j%5)
+			m.BlockSizes = append(m.BlockSizes, v)
+			if lb[1] == 1 {
+				run = protowire.AppendVarint(run, v)
+			} else {
+				w = protowire.AppendVarint(protowire.AppendTag(w, 4, protowire.VarintType), v)
+			}
+		}
+		if lb[1] == 1 {
+			w = protowire.AppendBytes(protowire.AppendTag(w, 4, protowire.BytesType), run)
+		}
+		emit(CodecInput{Kind: "data", Class: "conformant", Wire: hex.EncodeToString(w), Msg: m, Present: fmt.Sprintf("long-blocksizes-%d-packed=%d", lb[0], lb[1])})
+	}
 	kinds := []string{"data", "data", "time", "meta"}
 	for i := 0; i < nMal; i++ {
 		base := pool[rng.Intn(len(pool))]
